@@ -627,6 +627,18 @@ class ApiRun:
                             calls.append(dict(base, id=cid, replies=[U.b64(x) for x in replies],
                                               request={"mode": sp, "cls": self.cls_path(vm, "." + rq), "b64": U.b64(fz)}))
                             meta[cid] = (i, j, variant, sp, [fz], replies, consume_ok, "request with only falsy-but-present fields")
+                    # a request together with ONE flattened keyword that is not None but the zero value of its type ('', 0, False,
+                    # [], {}, enum 0, an empty message): ValueError, nothing on the wire (C05 judges the equivalence; here: dispatch)
+                    flat = self.facts["services"][s.name]["methods"][j].get("flattened") or []
+                    if flat and not m.client_streaming:
+                        zero = {"cls": self.cls_path(vm, "." + rq), "b64": ""}
+                        for fl in flat[:6]:
+                            for sp in ("message", "dict"):
+                                cid = f"{i}/{j}/{variant}/{sp}+zero:{fl['name']}"
+                                calls.append(dict(base, id=cid, replies=[U.b64(x) for x in replies],
+                                                  request={"mode": sp, "cls": zero["cls"], "b64": U.b64(reqmsg)},
+                                                  kwargs=[{"param": fl["name"], "path": fl["key"]}], source=zero))
+                                meta[cid] = (i, j, variant, "mixed_zero", sp, fl["name"], reqmsg)
                     auto = self.auto_fields(fp, s, m)
                     for state in (("unset", "value", "empty") if auto and not m.client_streaming else ()):
                         rm2 = type(reqmsg)()
@@ -704,6 +716,9 @@ class ApiRun:
                 continue
             if mt[3] == "rest":
                 self.judge_rest(cid, o, mt)
+                continue
+            if mt[3] == "mixed_zero":
+                self.judge_mixed_zero(cid, o, mt)
                 continue
             i, j, variant, sp, sent, replies, consume_ok = mt[:7]
             state = mt[7] if len(mt) > 7 else None
@@ -913,6 +928,25 @@ class ApiRun:
         from google.api import annotations_pb2
         rule = m.options.Extensions[annotations_pb2.http]
         return any("{" in getattr(rule, v) for v in ("get", "put", "post", "delete", "patch"))
+
+    def judge_mixed_zero(self, cid, o, mt):
+        ctx = self.ctx
+        i, j, variant, _, sp, param, reqmsg = mt
+        fp, s = self.svcs[i]
+        m = s.method[j]
+        case = dict(self.case, service=s.name, method=m.name, variant=variant, spelling=f"{sp} + {param}=<zero value>",
+                    requests_b64=[U.b64(reqmsg)])
+        ctx.case({"api": self.h, "method": m.name, "variant": variant, "mixed_zero": param, "sp": sp, "req": case["requests_b64"]},
+                 nontrivial=True, feature=[variant, "request + falsy-but-set flattened keyword", "spelling=" + sp])
+        known = None
+        if sum(1 for x in s.method if U.snake(x.name) == U.snake(m.name)) > 1:
+            known = "stubs.rpc_names_equal_after_snake_case"
+        e = o.get("error") or {}
+        if o["ok"] or e.get("exception") != "ValueError" or "individual field arguments" not in e.get("message", "") or o["calls"]:
+            ctx.violation(f"{s.name}.{m.name} ({variant}): a request ({sp}) together with {param}=<the zero value of its type> was not refused "
+                          f"with ValueError before sending (ok={o['ok']}, error={e.get('exception')}, calls={len(o['calls'])})", case, known)
+        if o.get("arg_before") is not None and o.get("arg_before") != o.get("arg_after"):
+            ctx.violation(f"{s.name}.{m.name} ({variant}): the refused call changed the caller's request object", case, known)
 
     def judge_big(self, cid, o, mt):
         ctx = self.ctx
